@@ -1335,6 +1335,10 @@ class Interp:
                 flat.extend(p.parts)
             elif isinstance(p, str):
                 flat.append(p)
+            elif isinstance(p, SV) and p.kind == 'zstr' and all(
+                    isinstance(q, str) or (isinstance(q, SV) and q.kind == 'zstr') for q in parts):
+                zs = [z3.StringVal(q) if isinstance(q, str) else q.z for q in parts if not (isinstance(q, str) and q == '')]
+                return SV('zstr', z3.Concat(*zs) if len(zs) > 1 else zs[0])
             elif isinstance(p, SV) or is_sym(p) or contains_sym(p):
                 return opaque_str('fstr', parts)
             else:
@@ -2087,7 +2091,7 @@ def _defining_class(cls, name):
 # path exploration
 
 def explore(run: Callable[[Interp], Any], contracts=None, max_paths: int = 4000, packages=('wn',),
-            no_inline=None, pre=()) -> list[Outcome]:
+            no_inline=None, pre=(), predicated: bool = False) -> list[Outcome]:
     """Run `run(interp)` on every path. Returns one Outcome per feasible path."""
     outcomes: list[Outcome] = []
     work: list[list[bool]] = [[]]
@@ -2098,6 +2102,16 @@ def explore(run: Callable[[Interp], Any], contracts=None, max_paths: int = 4000,
         CURRENT_CTX = ctx
         ctx.pc.extend(pre)
         interp = Interp(ctx, dict(contracts or {}), packages, no_inline)
+        if predicated:
+            # run everything under a trivial generic frame: symbolic branches are predicated instead of forked
+            fr = GenericFrame([], True)
+            fr.pred_base = 0
+            fr.owner_depth = -1
+            fr.outer_names = set()
+            fr.is_local = lambda name: True
+            fr.shadowed = set()
+            fr.body_ast = None
+            ctx.generic.append(fr)
         try:
             val = run(interp)
             out = Outcome('return', value=val)
